@@ -320,7 +320,7 @@ Section ScalarRT.
       destruct v as [|b|z|m e|s| |]; try discriminate.
       + destruct strict; [discriminate|]. eapply Hfin. exact H.
       + eapply Hfin. exact H.
-      + destruct strict; [discriminate|]. eapply Hfin. exact H.
+      + destruct strict; [discriminate|]. destruct (dec_integral m e); [|discriminate]. eapply Hfin. exact H.
       + destruct strict; [discriminate|]. destruct (parse_int s) as [z|]; [|discriminate]. eapply Hfin. exact H.
     - (* KFloat *)
       assert (Hfin : forall m e,
@@ -386,7 +386,7 @@ Section Bodies.
       | JInt z => fin z
       | JBool b => if strict then reject else fin (if b then 1 else 0)%Z
       | JStr s => if strict then reject else match parse_int s with Some z => fin z | None => reject end
-      | JDec m e => if strict then reject else fin (trunc_dec m e)
+      | JDec m e => if strict then reject else if dec_integral m e then fin (trunc_dec m e) else reject
       | _ => reject
       end
     | KFloat gt =>
@@ -568,8 +568,9 @@ Proof.
   - destruct v; try (destruct strict; discriminate). inversion H. reflexivity.
   - assert (Hfin : forall z, (if zopt_ok ge le gt z then Ok (MInt z) else Raise ValueError) = Ok x -> sval x = true).
     { intros z Hz. destruct (zopt_ok ge le gt z); [|discriminate]. inversion Hz. reflexivity. }
-    destruct v; try discriminate; try (destruct strict; try discriminate); try (eapply Hfin; exact H).
-    destruct (parse_int s); [|discriminate]. eapply Hfin; exact H.
+    destruct v as [|b|z|dm de|s| |]; try discriminate; try (destruct strict; try discriminate); try (eapply Hfin; exact H).
+    + destruct (dec_integral dm de); [|discriminate]. eapply Hfin; exact H.
+    + destruct (parse_int s); [|discriminate]. eapply Hfin; exact H.
   - assert (Hfin : forall m e,
                match gt with
                | Some b => if num_ltb (num_of_Z b) (mkNum m e) then Ok (MFloat m e) else Raise ValueError
@@ -1810,8 +1811,9 @@ Section HookTools.
     - assert (Hfin : forall z, (if zopt_ok ge le gt z then Ok (MInt z) else Raise ValueError) = Ok x ->
                                jt (KInt strict ge le gt) (EXP x) = true).
       { intros z Hz. destruct (zopt_ok ge le gt z); [|discriminate]. inversion Hz. reflexivity. }
-      destruct v; try discriminate; try (destruct strict; try discriminate); try (eapply Hfin; exact H).
-      destruct (parse_int s); [|discriminate]. eapply Hfin; exact H.
+      destruct v as [|b|z|dm de|s| |]; try discriminate; try (destruct strict; try discriminate); try (eapply Hfin; exact H).
+      + destruct (dec_integral dm de); [|discriminate]. eapply Hfin; exact H.
+      + destruct (parse_int s); [|discriminate]. eapply Hfin; exact H.
     - assert (Hfin : forall m e,
                  match gt with
                  | Some b => if num_ltb (num_of_Z b) (mkNum m e) then Ok (MFloat m e) else Raise ValueError
